@@ -19,7 +19,8 @@ EXPLANATION = (
 
 
 def jobs(tier):
-    return _repex.make_jobs(tier)
+    # the worker bound (workers <= ensembles - 1) is enforced by check_config: its E1 obligations are part of this property too
+    return _repex.make_jobs(tier) + [("e1", {"name": "check_config", "registry": "contracts.setup_cfg", "key": "check_config", "clause": "workers <= ensembles - 1", "cost": 5, "parallel": 8})]
 
 
 replay = _repex.replay
